@@ -210,6 +210,20 @@ func (c *ExpressionParser) composeExpression(tokens []*tokenizers.Token) string 
 	return builder.String()
 }
 
+// tokenToString gives a printable text of a token for error messages:
+// operators and keywords carry no value, constants may carry any type.
+func (c *ExpressionParser) tokenToString(token *ExpressionToken) string {
+	if token.Value() != nil && !token.Value().IsNull() {
+		return token.Value().String()
+	}
+	for index, operatorType := range operatorTypes {
+		if operatorType == token.Type() {
+			return operators[index]
+		}
+	}
+	return ""
+}
+
 func (c *ExpressionParser) performParsing() error {
 	if len(c.originalTokens) > 0 {
 		err := c.completeLexicalAnalysis()
@@ -224,7 +238,7 @@ func (c *ExpressionParser) performParsing() error {
 
 		if c.hasMoreTokens() {
 			token := c.getCurrentToken()
-			err = errors.NewSyntaxError("", errors.ErrErrorNear, "Syntax error near "+token.Value().AsString(), token.Line(), token.Column())
+			err = errors.NewSyntaxError("", errors.ErrErrorNear, "Syntax error near "+c.tokenToString(token), token.Line(), token.Column())
 			return err
 		}
 	}
@@ -640,7 +654,7 @@ func (c *ExpressionParser) performSyntaxAnalysisAtLevel6() error {
 		c.addTokenToResult(Constant, variants.VariantFromInteger(paramCount), primitiveToken.Line(), primitiveToken.Column())
 		c.addTokenToResult(primitiveToken.Type(), primitiveToken.Value(), primitiveToken.Line(), primitiveToken.Column())
 	} else {
-		err = errors.NewSyntaxError("", errors.ErrErrorAt, "Syntax error at "+primitiveToken.Value().AsString(), primitiveToken.Line(), primitiveToken.Column())
+		err = errors.NewSyntaxError("", errors.ErrErrorAt, "Syntax error at "+c.tokenToString(primitiveToken), primitiveToken.Line(), primitiveToken.Column())
 		return err
 	}
 
